@@ -62,8 +62,20 @@ def inject(rng, terms, rules, kind):
         if rng.random() < 0.4:
             rules.append(['V', ['U'], None, 0, [0]])
     elif kind == 15 and tn:
-        how = rng.choice(['used', 'unused', 'start'])
-        if how == 'start' and rules:
+        how = rng.choice(['used', 'unused', 'start', 'hides', 'hides'])
+        if how == 'hides' and rules:
+            # a nonterminal whose only occurrence stands to the right of an unproductive, non-nullable one
+            # (it is reachable all the same), its rule written before the unproductive one's
+            s = rules[0][0]
+            t = rng.choice(tn)
+            rules.insert(rng.randrange(1, len(rules) + 1), ['XH', [t], None, 0, None])
+            if rng.random() < 0.5:
+                rules.append([s, ['W', 'XH'], None, 0, None])
+                rules.append(['W', ['W', t], None, 0, None])
+            else:
+                rules.append(['W', ['W', t], None, 0, None])
+                rules.insert(rng.randrange(1, len(rules) + 1), [s, [t, 'W', 'XH'], None, 0, None])
+        elif how == 'start' and rules:
             s = rules[0][0]
             rules = [r for r in rules if r[0] != s]
             rules.insert(0, [s, [s, rng.choice(tn)], None, 0, None])
